@@ -28,6 +28,10 @@ type c18Scenario struct {
 	// ReconcileLost: the master refuses the first RECONCILE call of the new life (503): the client
 	// re-subscribes, and the new subscription has to reconcile again
 	ReconcileLost bool `json:"reconcile_lost,omitempty"`
+	// KillLost: the first KILL the new life sends for a leftover task has no effect (lost); a new
+	// environment is then deployed and the event stream dropped: the reconciliation that follows the
+	// re-subscription has to report the leftover again, and it has to be killed then
+	KillLost bool `json:"kill_lost,omitempty"`
 }
 
 var c18CrashPoints = []string{"launched-not-running", "configure-outstanding", "configured", "start-outstanding", "running", "stop-outstanding", "stopped", "reset-outstanding", "teardown-first-kill", "destroyed"}
@@ -48,6 +52,9 @@ func c18Scenarios(c *vlib.Ctx) []c18Scenario {
 			out = append(out, c18Scenario{Kind: "crash", Point: p, Shape: i % 3, NoCheckpoint: true})
 			out = append(out, c18Scenario{Kind: "crash", Point: p, Shape: (i + 1) % 3, ReconcileLost: true})
 		}
+		for i, p := range []string{"configured", "running", "stop-outstanding", "launched-not-running"} {
+			out = append(out, c18Scenario{Kind: "crash", Point: p, Shape: i % 3, KillLost: true})
+		}
 		for i, p := range c18ReconnectPoints {
 			out = append(out, c18Scenario{Kind: "reconnect", Point: p, Shape: i % 3, NoCheckpoint: true})
 		}
@@ -56,7 +63,9 @@ func c18Scenarios(c *vlib.Ctx) []c18Scenario {
 	out = append(out, c18Scenario{Kind: "crash", Point: "running", Shape: 2, NoCheckpoint: true},
 		c18Scenario{Kind: "reconnect", Point: "configured", Shape: 1, NoCheckpoint: true},
 		c18Scenario{Kind: "crash", Point: "configured", Shape: 1, ReconcileLost: true},
-		c18Scenario{Kind: "crash", Point: "start-outstanding", Shape: 2, ReconcileLost: true})
+		c18Scenario{Kind: "crash", Point: "start-outstanding", Shape: 2, ReconcileLost: true},
+		c18Scenario{Kind: "crash", Point: "configured", Shape: 2, KillLost: true},
+		c18Scenario{Kind: "crash", Point: "running", Shape: 1, KillLost: true})
 	for i, p := range []string{"launched-not-running", "configure-outstanding", "configured", "running", "stop-outstanding", "teardown-first-kill"} {
 		out = append(out, c18Scenario{Kind: "crash", Point: p, Shape: i % 3})
 	}
@@ -96,6 +105,9 @@ func c18Run(c *vlib.Ctx, idx int, sc c18Scenario) {
 	}
 	if sc.ReconcileLost {
 		cls += "+reconcile-lost"
+	}
+	if sc.KillLost {
+		cls += "+kill-lost"
 	}
 	c.Nontrivial(vlib.Hash("c18", cls, sc.Shape))
 	obs := &c18Obs{Scenario: sc, Index: idx}
@@ -178,7 +190,11 @@ func c18Run(c *vlib.Ctx, idx int, sc c18Scenario) {
 			return nil
 		}
 	}
+	var killLostFor atomic.Value // id of the leftover whose first KILL of the new life was lost
 	s.Master.OnKill = func(t *simmesos.LaunchedTask) string {
+		if sc.KillLost && restarted.Load() && t.Life == 1 && killLostFor.CompareAndSwap(nil, t.ID) {
+			return "ignore"
+		}
 		if sc.Kind == "crash" && sc.Point == "teardown-first-kill" && !restarted.Load() {
 			hit("teardown-first-kill")
 			return "ignore" // the core dies before the kill takes effect
@@ -299,6 +315,40 @@ func c18Run(c *vlib.Ctx, idx int, sc c18Scenario) {
 		}
 		for time.Now().Before(deadline) && len(alive()) > 0 {
 			time.Sleep(50 * time.Millisecond)
+			if sc.KillLost && killLostFor.Load() != nil && len(alive()) == 1 {
+				break // only the task whose KILL was lost is left
+			}
+		}
+		if sc.KillLost {
+			if killLostFor.Load() == nil {
+				if len(firstLife) == 0 {
+					return // nothing was left over at this point
+				}
+				c.Inconclusive(fmt.Sprintf("scenario %d: the new life sent no KILL that could be lost", idx))
+				return
+			}
+			c.Count("kills_lost", 1)
+			// a new environment is deployed (the roster is no longer empty), then the stream is dropped
+			ctx, cancel := coresim.Ctx(120 * time.Second)
+			_, nerr := s.Client.NewEnvironment(ctx, &pb.NewEnvironmentRequest{WorkflowTemplate: wfName, Vars: map[string]string{}})
+			cancel()
+			mu.Lock()
+			obs.Steps = append(obs.Steps, fmt.Sprintf("second life: NewEnvironment err=%q", truncate(grpcMsg(nerr), 120)))
+			mu.Unlock()
+			life1 := s.Master.Life()
+			s.Master.DropStream()
+			dl := time.Now().Add(120 * time.Second)
+			for time.Now().Before(dl) && (s.Master.Life() == life1 || !s.Master.Subscribed()) {
+				time.Sleep(20 * time.Millisecond)
+			}
+			if s.Master.Life() == life1 {
+				c.Inconclusive("core did not resubscribe within 120 s")
+				return
+			}
+			deadline = time.Now().Add(10 * time.Second)
+			for time.Now().Before(deadline) && len(alive()) > 0 {
+				time.Sleep(50 * time.Millisecond)
+			}
 		}
 		if sc.ReconcileLost {
 			if !reconcileRefused.Load() {
